@@ -707,6 +707,18 @@ impl Database {
         }
     }
 
+    /// Drops a removed key from memory once it is gone from disk (after reclaiming space)
+    pub fn purge_deleted_key(&self, key: &String) {
+        let mut db = self.map.write().unwrap();
+        let is_deleted = match db.get(key) {
+            Some(value) => value.state == ValueStatus::Deleted,
+            None => false,
+        };
+        if is_deleted {
+            db.remove(key);
+        }
+    }
+
     pub fn get_value(&self, key: String) -> Option<Value> {
         let db = self.map.read().unwrap();
         if let Some(value) = db.get(&key.to_string()) {
